@@ -109,6 +109,21 @@ def gen_flow(rng, families=None, allow_pydrex=True):
                 "velocity_edge": rng.uniform(0.3, 1.0), "edge_length": 2.0}
     if fam == "zero":
         return {"family": "zero"}
+    if fam == "rotation":
+        # rigid rotation: antisymmetric L, zero strain rate
+        w = [rng.uniform(-2, 2) for _ in range(3)]
+        return {"family": "const", "L0": [[0.0, -w[2], w[1]], [w[2], 0.0, -w[0]], [-w[1], w[0], 0.0]],
+                "rigid_rotation": True}
+    if fam == "pulse":
+        a = rng.uniform(0.05, 0.6)
+        return {"family": "pulse", "L0": normalise_rate(gen_L(rng), rng.choice([1.0, 2.0, 4.0])),
+                "gate": [a, a + rng.uniform(0.2, 1.0)]}
+    if fam == "band":
+        ax = rng.randrange(3)
+        n = [0.0, 0.0, 0.0]
+        n[ax] = 1.0
+        return {"family": "band", "L0": normalise_rate(gen_L(rng), rng.choice([1.0, 2.0, 4.0])),
+                "n": n, "c": rng.uniform(-0.2, 0.2), "w": rng.uniform(0.1, 0.4), "axis": ax}
     if fam == "gated":
         a = rng.uniform(0.0, 1.0)
         return {"family": "gated", "L0": gen_L(rng), "gate": [a, a + rng.uniform(0.1, 0.8)]}
@@ -122,6 +137,15 @@ def gen_path(rng, flow):
         k = rng.choice(["line", "circle", "static"])
     else:
         k = rng.choice(["static", "static", "line"])
+    if flow["family"] == "band":
+        # a particle crossing the band: starts in the rigid region on one side
+        ax = flow["axis"]
+        side = rng.choice([-1.0, 1.0])
+        x0 = [rng.uniform(-0.3, 0.3) for _ in range(3)]
+        x0[ax] = flow["c"] - side * (flow["w"] + rng.uniform(0.05, 0.3))
+        v = [rng.uniform(-0.05, 0.05) for _ in range(3)]
+        v[ax] = side * rng.uniform(0.4, 1.5)
+        return {"kind": "line", "x0": x0, "v": v}
     inside = flow["family"] == "pydrex_cell"
     if inside and rng.random() < 0.4:
         # pydrex.pathlines.get_pathline through the same cell (position in the cell's plane)
@@ -147,7 +171,7 @@ def gen_paramset(rng, phases=None, hot_gbs=False):
     if len(phases) == 1:
         fr = [1.0]
     else:
-        a = rng.choice([0.7, 0.5, 0.3, rng.uniform(0.05, 0.95)])
+        a = rng.choice([0.7, 0.5, 0.3, rng.uniform(0.05, 0.95), rng.uniform(0.05, 0.95), 1.0, 0.0])
         fr = [a, 1.0 - a]
     mob = rng.choice([0.0, 10.0, 50.0, 125.0, 200.0, rng.uniform(0, 200)])
     chi = rng.choice([0.0, 0.1, 0.3, 0.5, 0.9, rng.uniform(0, 0.9)])
